@@ -456,10 +456,26 @@ fn run(ctx: &mut Ctx) -> Verdict {
         return super::c18_rsim::run_mode(ctx, super::c18_rsim::Mode::BigRequest);
     }
     let n = 1 + ctx.pick(3);
-    let params: Vec<Param> = (0..n).map(|_| gen_param(ctx)).collect();
-    for p in &params {
-        ev!(ctx, "param {:?}", p);
+    let mut params: Vec<Param> = (0..n).map(|_| gen_param(ctx)).collect();
+    // one run in 12: request `ab` is given up by its caller (the rpc() future is dropped) at its first
+    // suspension point after bytes went out - the transport's flush is still pending. In half of these
+    // runs it carries a subtree filter of 70-200 KiB. The in-memory transport takes a send() call as a
+    // whole, so the server must be left with whole messages only: nothing unterminated that the next
+    // request would be glued to.
+    let abandon: Option<usize> = ctx.chance(1, 12).then(|| ctx.pick(n));
+    if let Some(ab) = abandon {
+        if ctx.pick(2) == 0 {
+            let len = 70_000 + ctx.pick(130_000);
+            params[ab] = Param::GetSubtree(format!("<top xmlns=\"urn:x\"><big>{}</big></top>", "0123456789abcdef".repeat(len / 16)));
+            ctx.count("probe.abandoned_request_above_64_KiB");
+        }
+        params.push(Param::CommitLog("after the abandoned call".into()));
+        ctx.count("fault.rpc_call_dropped_while_its_send_is_pending");
     }
+    for p in &params {
+        ev!(ctx, "param {}", format!("{p:?}").chars().take(300).collect::<String>());
+    }
+    ev!(ctx, "abandoned call: {abandon:?}");
     let caps = [
         CAP_BASE10,
         CAP_JUNOS,
@@ -485,6 +501,21 @@ fn run(ctx: &mut Ctx) -> Verdict {
             };
             for (k, p) in params2.iter().enumerate() {
                 let before = net.lock().unwrap().received.len();
+                if Some(k) == abandon {
+                    net.lock().unwrap().send_after.push_back(1);
+                    let r = super::c05::GiveUpWhenPending(Box::pin(issue(&mut s, p))).await;
+                    let mut n = net.lock().unwrap();
+                    if n.received.len() == before && n.unframed_len() == 0 {
+                        // given up (or refused locally) before any send: its queue entry was not consumed
+                        let _ = n.send_after.pop_back();
+                    }
+                    let r = match r {
+                        None => Ok(()),
+                        Some(r) => r.map_err(|e| format!("{e:?}")),
+                    };
+                    obs2.lock().unwrap().push((k, n.received.len() - before, n.unframed_len(), r));
+                    continue;
+                }
                 let r = issue(&mut s, p).await.map_err(|e| format!("{e:?}"));
                 let n = net.lock().unwrap();
                 obs2.lock().unwrap().push((k, n.received.len() - before, n.unframed_len(), r));
@@ -515,6 +546,12 @@ fn run(ctx: &mut Ctx) -> Verdict {
             continue;
         }
         ctx.nontrivial = true;
+        if Some(*k) == abandon && *unframed != 0 {
+            return Verdict::violation(
+                format!("partial-message-left-at-the-server/{name}"),
+                format!("an rpc() call dropped while its send was pending left {framed} complete message(s) and {unframed} byte(s) of an unterminated message at the server (the transport takes each send() as a whole): the next request will be glued to them"),
+            );
+        }
         if *framed != 1 || *unframed != 0 {
             return Verdict::violation(
                 format!("not-exactly-one-message/{name}"),
@@ -547,7 +584,7 @@ pub static C10: PropSpec = PropSpec {
     runs: |t| if t == Tier::Thorough { 10_000_000 } else { 200_000 },
     enumerated: |_| 0,
     run,
-    rule: "one run in 1500: 2-4 pipelined requests over the real TLS / SSH / local transport of which the first carries a 70-260 KiB subtree filter (larger than a pipe or socket buffer accepts at once); the scripted peer frames by the delimiter and must see every request exactly once, well-formed, the large value complete. Otherwise: 1-3 requests per session, each exercising one text-valued or fragment-valued parameter of one operation (19 parameter sites), or several parameters of one operation at once (commit: confirm-timeout x persist token; commit-configuration: check x confirmed[-timeout] x log x synchronize; edit-config: target x config|url x default-operation x error-option x test-option), every one of which must be read back; or a caller-supplied payload whose serialisation fails half-way (the call must fail, nothing may be sent and later messages must be unaffected); text values are concatenations of pieces from an adversarial alphabet (XML metacharacters, quotes, ']]>', the delimiter itself, entity look-alikes, comment/CDATA/PI openers, non-ASCII, empty); fragments come from a well-formed fragment generator (namespaces, attributes, nested elements, rewrite styles) and never contain the delimiter. The server frames by delimiter and parses with the harness's strict parser. Non-trivial = at least one request was sent; distinct = distinct event-log hash (includes the parameter values)",
+    rule: "one run in 1500: 2-4 pipelined requests over the real TLS / SSH / local transport of which the first carries a 70-260 KiB subtree filter (larger than a pipe or socket buffer accepts at once); the scripted peer frames by the delimiter and must see every request exactly once, well-formed, the large value complete. Otherwise: 1-3 requests per session, each exercising one text-valued or fragment-valued parameter of one operation (19 parameter sites), or several parameters of one operation at once (commit: confirm-timeout x persist token; commit-configuration: check x confirmed[-timeout] x log x synchronize; edit-config: target x config|url x default-operation x error-option x test-option), every one of which must be read back; or a caller-supplied payload whose serialisation fails half-way (the call must fail, nothing may be sent and later messages must be unaffected); in one run of 12 one rpc() call - in half of these with a 70-200 KiB filter - is dropped by its caller at its first suspension point after bytes went out (flush pending) and another request follows: the server must be left with whole messages only; text values are concatenations of pieces from an adversarial alphabet (XML metacharacters, quotes, ']]>', the delimiter itself, entity look-alikes, comment/CDATA/PI openers, non-ASCII, empty); fragments come from a well-formed fragment generator (namespaces, attributes, nested elements, rewrite styles) and never contain the delimiter. The server frames by delimiter and parses with the harness's strict parser. Non-trivial = at least one request was sent; distinct = distinct event-log hash (includes the parameter values)",
     components: &[("netconf session + request serialisers (message/**)", "real"), ("transport", "stub: in-memory; one run in 1500: the real TLS / SSH / local transports (send side under back-pressure) against the scripted R-sim peer"), ("NETCONF server", "model: frames by ]]>]]>, strict XML parser, reads values back")],
     assumptions: &[
         "decided by generated parameter values; schedule fixed",
